@@ -182,7 +182,7 @@ PROPS.update({
     ),
     'C18': dict(
         extra_modules=['GraphrsModel.Props.C18Model'],
-        gens=[('eig', 'small', 1500, 25000, 7)],
+        gens=[('eig', 'small', 1500, 25000, 7), ('eig', 'small', 100, 2000, 16)],
         spec_fields=[r'ok\.eig'], model_fields=[r'build', r'agree\.eig'],
         nontrivial=lambda req, I: I.get('eig:b', '').count('>') >= 2,
         hist=lambda req, I: graph_hist(req, I) + ['result.' + ('ok' if '>' in I.get('eig:b', '') or I.get('eig:b') == '.' else I.get('eig:b', '?')),
@@ -199,7 +199,7 @@ PROPS.update({
 PROPS.update({
     'C10': dict(
         extra_modules=['GraphrsModel.Props.C10Model'],
-        gens=[('comp', 'small', 2500, 40000, 10)],
+        gens=[('comp', 'small', 2500, 40000, 10), ('comp', 'small', 150, 3000, 24)],
         spec_fields=[r'ok\.cc', r'ok\.wcc', r'ok\.scc', r'ok\.ncc', r'ok\.num', r'ok\.bfs', r'ok\.eq'],
         model_fields=[r'build', r'cc', r'wcc', r'scc', r'ncc', r'num', r'eq'],
         nontrivial=lambda req, I: any(',' in I.get(f, '') for f in ('cc', 'wcc', 'scc')),
@@ -216,7 +216,7 @@ PROPS.update({
 PROPS.update({
     'C11': dict(
         extra_modules=['GraphrsModel.Props.C11Model'],
-        gens=[('clu', 'small', 2500, 40000, 7)],
+        gens=[('clu', 'small', 2500, 40000, 7), ('clu', 'small', 100, 2000, 16)],
         spec_fields=[r'tri', r'triS', r'gd', r'gdS', r'trans:q', r'clu:q', r'cluS:q', r'wclu:b', r'wcluS:b', r'avg1:b', r'avg0:b',
                      r'avgS:b', r'sq:q', r'sqS:q', r'ok\.unit'],
         model_fields=[r'build', r'tri', r'triS', r'gd', r'gdS', r'trans:q', r'clu:q', r'cluS:q', r'wclu:b', r'wcluS:b', r'avg1:b',
@@ -241,7 +241,7 @@ LOUV_RULE = ('random graphs of all 8 kinds with 2..size nodes and at least one e
 PROPS.update({
     'C12': dict(
         extra_modules=['GraphrsModel.Props.C09Model', 'GraphrsModel.Props.C12Weighted'],
-        gens=[('mod', 'small', 3000, 50000, 7)],
+        gens=[('mod', 'small', 3000, 50000, 7), ('mod', 'small', 150, 3000, 18)],
         spec_fields=[r'isp', r'mod:q'], model_fields=[r'build', r'isp', r'mod:q'], impl_checks=[('defaultres', '1')],
         nontrivial=lambda req, I: I.get('isp') == '1' and I.get('mod:q') not in ('nan', None),
         hist=lambda req, I: graph_hist(req, I) + ['isp.' + I.get('isp', '?'), 'mod.' + ('E6' if I.get('mod:q') == 'E6' else 'value')],
@@ -252,7 +252,7 @@ PROPS.update({
     ),
     'C13': dict(
         extra_modules=['GraphrsModel.Props.C13Model'],
-        gens=[('louv', 'random', 1500, 25000, 9), ('louv', 'ties', 500, 8000, 10), ('louv', 'strand', 1500, 25000, 6)],
+        gens=[('louv', 'random', 1500, 25000, 9), ('louv', 'ties', 500, 8000, 10), ('louv', 'strand', 1500, 25000, 6), ('louv', 'random', 100, 2000, 20)],
         spec_fields=[r'ok\.levels', r'ok\.nested', r'ok\.monotone', r'ok\.last'], model_fields=[r'build', r'parts'],
         nontrivial=lambda req, I: ',' in I.get('parts', ''),
         hist=lambda req, I: graph_hist(req, I) + ['levels.%d' % len(I.get('parts', '').split())],
